@@ -561,8 +561,20 @@ def origins(prog, f, local, scope=None, call_filter=None, max_frames=6, _seen=No
     if key in seen or max_frames < 0:
         return out
     seen.add(key)
-    dep, calls, consts = f.depends_on(local, call_filter=call_filter)
+    user_filter = call_filter
+    # the `?` residual conversion carries the *error* value, not the Ok payload: never follow it
+    cf = (lambda c: c.name != "from_residual" and (user_filter is None or user_filter(c)))
+    dep, calls, consts = f.depends_on(local, call_filter=cf)
+    calls = [c for c in calls if c.name != "from_residual"]
     out.calls.extend(calls)
+    # return-value summaries: a workspace callee's result depends on what its body returns
+    for c in calls:
+        if call_filter is not None and not call_filter(c):
+            continue
+        for t in prog.call_targets(c):
+            if t.is_test_like() or (scope is not None and t.path not in scope):
+                continue
+            origins(prog, t, 0, scope, call_filter, max_frames - 1, seen, out)
     out.consts.extend((f, bb, c) for bb, c in consts)
     # field reads
     for l in dep:
